@@ -39,29 +39,61 @@ theorem Props_queries {c : Cfg} (hc : c.wf = true) (ops : List (Int × Request))
   simp only [MockExchange.step, MockExchange.tradesSince, MockExchange.Spec.tradesSince]
   rw [h.trades]
 
-/-! ## A.1 Projection onto the C08 exchange -/
+/-! ## A.1 Projection onto the C08 exchange
+
+`XState.step` feeds the C08 ledger with `ledgerTime latency t` (so that the ledger's unconditional
+`+ latency / 2` is the code's `checked_add_signed(..).unwrap_or(time_request)`). The lemmas are first
+proved for the step / run / answer AS FUNCTIONS OF THE LEDGER TIME (`stepL`, `runL`, `answerL`: proof
+devices, `te = t + latency / 2` unconditionally) and then transferred along `xstep_eq` / `xrun_eq` /
+`answer_eq`. -/
+
+/-- `XState.step` as a function of the request time the ledger is fed. -/
+def XState.stepL (x : XState) (t : Int) (rq : Request) : XState × XResp × List Event :=
+  let r := MockExchange.step x.base t rq
+  let te : Int := t + ((x.base.latency / 2 : Nat) : Int)
+  let x' : XState := { base := r.1, opens := stampOpens te x.opens, cancels := x.cancels }
+  let resp : XResp :=
+    match r.2.1 with
+    | .snapshot bs => .snapshot bs x'.groups
+    | .balances bs => .balances bs
+    | .ordersOpen => .ordersOpen x'.opens
+    | .trades ts => .trades ts
+    | .dropped => .dropped
+    | .order res => .order res
+  (x', resp, r.2.2)
+
+def XState.runL (x : XState) (ops : List (Int × Request)) : XState :=
+  ops.foldl (fun x op => (x.stepL op.1 op.2).1) x
+
+theorem stampTime_eq (l : Nat) (t : Int) : stampTime l t = ledgerTime l t + ((l / 2 : Nat) : Int) := by
+  unfold ledgerTime; omega
+
+theorem xstep_eq (x : XState) (t : Int) (rq : Request) :
+    x.step t rq = x.stepL (ledgerTime x.base.latency t) rq := by
+  simp only [XState.step, XState.stepL, stampTime_eq]
+  rfl
 
 /-- The ledger part of the extended exchange is the C08 exchange. -/
-theorem step_base (x : XState) (t : Int) (rq : Request) :
-    (x.step t rq).1.base = (MockExchange.step x.base t rq).1 ∧
-    (x.step t rq).2.2 = (MockExchange.step x.base t rq).2.2 := by
-  simp [XState.step]
+theorem stepL_base (x : XState) (t : Int) (rq : Request) :
+    (x.stepL t rq).1.base = (MockExchange.step x.base t rq).1 ∧
+    (x.stepL t rq).2.2 = (MockExchange.step x.base t rq).2.2 := by
+  simp [XState.stepL]
 
-theorem xrun_append (x : XState) (ops : List (Int × Request)) (op : Int × Request) :
-    x.run (ops ++ [op]) = ((x.run ops).step op.1 op.2).1 := by
-  simp [XState.run, List.foldl_append]
+theorem xrunL_append (x : XState) (ops : List (Int × Request)) (op : Int × Request) :
+    x.runL (ops ++ [op]) = ((x.runL ops).stepL op.1 op.2).1 := by
+  simp [XState.runL, List.foldl_append]
 
-theorem xrun_cons (x : XState) (op : Int × Request) (ops : List (Int × Request)) :
-    x.run (op :: ops) = (x.step op.1 op.2).1.run ops := by
-  simp [XState.run]
+theorem xrunL_cons (x : XState) (op : Int × Request) (ops : List (Int × Request)) :
+    x.runL (op :: ops) = (x.stepL op.1 op.2).1.runL ops := by
+  simp [XState.runL]
 
-theorem xrun_base (x : XState) (ops : List (Int × Request)) :
-    (x.run ops).base = MockExchange.run x.base ops := by
+theorem xrunL_base (x : XState) (ops : List (Int × Request)) :
+    (x.runL ops).base = MockExchange.run x.base ops := by
   induction ops generalizing x with
   | nil => rfl
   | cons op ops ih =>
-    rw [xrun_cons, ih]
-    simp [MockExchange.run, (step_base x op.1 op.2).1]
+    rw [xrunL_cons, ih]
+    simp [MockExchange.run, (stepL_base x op.1 op.2).1]
 
 theorem openOrder_latency (s : State) (r : Req) : (openOrder s r).1.latency = s.latency := by
   rcases openOrder_cases s r with ⟨_, e⟩ | ⟨_, _, e⟩ | ⟨u, _, _, _, e⟩ | ⟨u, cur, _, _, _, _, e⟩ |
@@ -84,43 +116,93 @@ theorem run_latency (s : State) (ops : List (Int × Request)) : (MockExchange.ru
     simp only [MockExchange.run, List.foldl_cons] at ih ⊢
     rw [ih, step_latency]
 
+/-- The ledger part of the extended exchange is the C08 exchange at the ledger time of the request. -/
+theorem step_base (x : XState) (t : Int) (rq : Request) :
+    (x.step t rq).1.base = (MockExchange.step x.base (ledgerTime x.base.latency t) rq).1 ∧
+    (x.step t rq).2.2 = (MockExchange.step x.base (ledgerTime x.base.latency t) rq).2.2 := by
+  rw [xstep_eq]; exact stepL_base x _ rq
+
+theorem xstep_latency (x : XState) (t : Int) (rq : Request) : (x.step t rq).1.base.latency = x.base.latency := by
+  rw [(step_base x t rq).1, step_latency]
+
+theorem xrun_append (x : XState) (ops : List (Int × Request)) (op : Int × Request) :
+    x.run (ops ++ [op]) = ((x.run ops).step op.1 op.2).1 := by
+  simp [XState.run, List.foldl_append]
+
+theorem xrun_cons (x : XState) (op : Int × Request) (ops : List (Int × Request)) :
+    x.run (op :: ops) = (x.step op.1 op.2).1.run ops := by
+  simp [XState.run]
+
+/-- A history run by `step` is the same history, at its ledger times, run by `stepL`. -/
+theorem xrun_eq (x : XState) (ops : List (Int × Request)) :
+    x.run ops = x.runL (ledgerOps x.base.latency ops) := by
+  induction ops generalizing x with
+  | nil => rfl
+  | cons op ops ih =>
+    rw [xrun_cons, ih, xstep_latency]
+    simp [ledgerOps, xrunL_cons, xstep_eq]
+
+theorem xrun_base (x : XState) (ops : List (Int × Request)) :
+    (x.run ops).base = MockExchange.run x.base (ledgerOps x.base.latency ops) := by
+  rw [xrun_eq, xrunL_base]
+
+theorem xrun_latency (x : XState) (ops : List (Int × Request)) : (x.run ops).base.latency = x.base.latency := by
+  rw [xrun_base, run_latency]
+
 /-! ## A.2 The order maps along a history: market orders never rest -/
 
+theorem stepL_cancels (x : XState) (t : Int) (rq : Request) : (x.stepL t rq).1.cancels = x.cancels := by
+  simp [XState.stepL]
+
 theorem step_cancels (x : XState) (t : Int) (rq : Request) : (x.step t rq).1.cancels = x.cancels := by
-  simp [XState.step]
+  rw [xstep_eq]; exact stepL_cancels x _ rq
 
 /-- Exchange time of a request stamped `t`: `(updateTime s t).time = t + latency / 2`. -/
+theorem stepL_opens (x : XState) (t : Int) (rq : Request) :
+    (x.stepL t rq).1.opens = stampOpens (updateTime x.base t).time x.opens := by
+  simp [XState.stepL, updateTime]
+
+/-- The open orders are stamped with the code's exchange time (`stampTime`). -/
 theorem step_opens (x : XState) (t : Int) (rq : Request) :
-    (x.step t rq).1.opens = stampOpens (updateTime x.base t).time x.opens := by
-  simp [XState.step, updateTime]
+    (x.step t rq).1.opens = stampOpens (stampTime x.base.latency t) x.opens := by
+  simp [XState.step]
 
 theorem updateTime_time_eq {s s' : State} (h : s'.latency = s.latency) (t : Int) :
     (updateTime s' t).time = (updateTime s t).time := by
   simp [updateTime, h]
 
+/-- The ledger, fed the ledger time, stamps the code's exchange time. -/
+theorem updateTime_ledgerTime (s : State) (t : Int) :
+    (updateTime s (ledgerTime s.latency t)).time = stampTime s.latency t := by
+  simp only [updateTime]; rw [stampTime_eq]
+
 theorem stampOpens_stampOpens (a b : Int) (os : List OpenOrd) :
     stampOpens a (stampOpens b os) = stampOpens a os := by
   simp [stampOpens, List.map_map, Function.comp_def]
 
-theorem xrun_cancels (x : XState) (ops : List (Int × Request)) : (x.run ops).cancels = x.cancels := by
+theorem xrunL_cancels (x : XState) (ops : List (Int × Request)) : (x.runL ops).cancels = x.cancels := by
   induction ops generalizing x with
   | nil => rfl
-  | cons op ops ih => rw [xrun_cons, ih, step_cancels]
+  | cons op ops ih => rw [xrunL_cons, ih, stepL_cancels]
+
+theorem xrun_cancels (x : XState) (ops : List (Int × Request)) : (x.run ops).cancels = x.cancels := by
+  rw [xrun_eq, xrunL_cancels]
 
 /-- After a non-empty history the open orders are the initial ones stamped with the exchange time of
 the last request. -/
-theorem stampOpens_xrun (a : Int) (x : XState) (ops : List (Int × Request)) :
-    stampOpens a (x.run ops).opens = stampOpens a x.opens := by
+theorem stampOpens_xrunL (a : Int) (x : XState) (ops : List (Int × Request)) :
+    stampOpens a (x.runL ops).opens = stampOpens a x.opens := by
   induction ops generalizing x with
   | nil => rfl
-  | cons op ops ih => rw [xrun_cons, ih, step_opens, stampOpens_stampOpens]
+  | cons op ops ih => rw [xrunL_cons, ih, stepL_opens, stampOpens_stampOpens]
+
+theorem stampOpens_xrun (a : Int) (x : XState) (ops : List (Int × Request)) :
+    stampOpens a (x.run ops).opens = stampOpens a x.opens := by
+  rw [xrun_eq, stampOpens_xrunL]
 
 theorem xrun_opens_snoc (x : XState) (ops : List (Int × Request)) (op : Int × Request) :
-    (x.run (ops ++ [op])).opens = stampOpens (updateTime x.base op.1).time x.opens := by
-  rw [xrun_append, step_opens, stampOpens_xrun]
-  congr 1
-  apply updateTime_time_eq
-  rw [xrun_base, run_latency]
+    (x.run (ops ++ [op])).opens = stampOpens (stampTime x.base.latency op.1) x.opens := by
+  rw [xrun_append, step_opens, stampOpens_xrun, xrun_latency]
 
 /-- Forgetting the time stamp. -/
 def OpenOrd.untimed (o : OpenOrd) : OrdHead × Nat × Rat := (o.head, o.id, o.filled)
@@ -678,24 +760,141 @@ theorem init_cancels_byCid {c : XCfg} (h : Spec.distinctCids c) :
   · exact foldl_insertKey_sorted _ _ (by simp [KeySorted])
   · simpa using foldl_insertKey_perm (·.head.cid) (Spec.initialCancelled c) (l := []) (by simpa using h.2)
 
-theorem xrun_time (c : XCfg) (hist : List (Int × Request)) (t : Int) :
-    (updateTime ((XState.init c).run hist).base t).time = exchangeTime c.base t := by
-  rw [xrun_base]
+/-- `Spec.answer` as a function of the ledger times (proof device: the exchange time is
+`t + latency / 2` unconditionally). -/
+def answerL (c : XCfg) (hist : List (Int × Request)) (t : Int) (rq : Request) : Spec.Answer :=
+  let acc := MockExchange.Spec.accepted c.base (opens c.base hist)
+  let te := exchangeTime c.base t
+  match rq with
+  | .fetchSnapshot => .snapshot (MockExchange.Spec.ledger c.base acc) te (Spec.groups (Spec.ordersAt c te))
+  | .fetchBalances => .balances (MockExchange.Spec.ledger c.base acc) te
+  | .fetchOrdersOpen => .orders (Spec.openAt c te)
+  | .fetchTrades since => .trades (MockExchange.Spec.tradesSince c.base acc since)
+  | .cancelOrder => .unsupported
+  | .openOrder r =>
+    match MockExchange.Spec.respond c.base acc ⟨te, r⟩ with
+    | some (a, b, tr) => .filled acc.length te r.qty a b tr
+    | none => .rejected
+
+theorem xrunL_time (c : XCfg) (hist : List (Int × Request)) (t : Int) :
+    (updateTime ((XState.init c).runL hist).base t).time = exchangeTime c.base t := by
+  rw [xrunL_base]
   simp [updateTime, exchangeTime, run_latency, XState.init, MockExchange.init]
+
+/-- The order maps after any history and one more request stamped `t`. -/
+theorem stepL_orders {c : XCfg} (hd : Spec.distinctCids c) (hist : List (Int × Request)) (t : Int) (rq : Request) :
+    let x' := (((XState.init c).runL hist).stepL t rq).1
+    x'.opens = Spec.openAt c (exchangeTime c.base t) ∧
+    x'.cancels = Spec.byCid (·.head.cid) (Spec.initialCancelled c) ∧
+    x'.ordersAll = Spec.ordersAt c (exchangeTime c.base t) := by
+  have h1 : ((((XState.init c).runL hist).stepL t rq).1).opens = Spec.openAt c (exchangeTime c.base t) := by
+    rw [stepL_opens, xrunL_time, stampOpens_xrunL, init_opens_byCid hd]
+    rfl
+  have h2 : ((((XState.init c).runL hist).stepL t rq).1).cancels = Spec.byCid (·.head.cid) (Spec.initialCancelled c) := by
+    rw [stepL_cancels, xrunL_cancels, init_cancels_byCid hd]
+  refine ⟨h1, h2, ?_⟩
+  simp only [XState.ordersAll, Spec.ordersAt, h1, h2]
+
+/-- Whatever the exchange has been asked before (`hist`), its response to the next request conforms
+to the history-only answer of the specification, and it broadcasts exactly the notifications that
+answer is accompanied by. -/
+theorem stepL_conforms {c : XCfg} (hc : c.base.wf = true) (hd : Spec.distinctCids c)
+    (hist : List (Int × Request)) (t : Int) (rq : Request) :
+    Spec.Conforms (((XState.init c).runL hist).stepL t rq).2.1 (answerL c hist t rq) ∧
+    (((XState.init c).runL hist).stepL t rq).2.2 = (answerL c hist t rq).events := by
+  obtain ⟨ho, hcn, hall⟩ := stepL_orders hd hist t rq
+  have hg : ((((XState.init c).runL hist).stepL t rq).1).groups =
+      Spec.groups (Spec.ordersAt c (exchangeTime c.base t)) := by rw [groups_eq_spec, hall]
+  have hbase : ((XState.init c).runL hist).base = MockExchange.run (MockExchange.init c.base) hist := by
+    rw [xrunL_base]; rfl
+  have htimes := step_balance_times ((XState.init c).runL hist).base t rq
+  rw [xrunL_time] at htimes
+  obtain ⟨⟨bs1, hs1, hl1⟩, ⟨bs2, hs2, hl2⟩, htr⟩ := Props_queries hc hist t
+  cases rq with
+  | fetchSnapshot =>
+    have e := hs1
+    rw [← hbase] at e
+    have hb : (MockExchange.step ((XState.init c).runL hist).base t .fetchSnapshot).1.balances = bs1 := by
+      have : (MockExchange.step ((XState.init c).runL hist).base t .fetchSnapshot).2.1 = .snapshot bs1 := by rw [e]
+      simpa [MockExchange.step] using this
+    simp only [XState.stepL, e, answerL, Spec.Conforms, Spec.Answer.events] at hg ⊢
+    refine ⟨⟨hl1, ?_, hg⟩, trivial⟩
+    rw [← hb]; exact htimes
+  | fetchBalances =>
+    have e := hs2
+    rw [← hbase] at e
+    have hb : (MockExchange.step ((XState.init c).runL hist).base t .fetchBalances).1.balances = bs2 := by
+      have : (MockExchange.step ((XState.init c).runL hist).base t .fetchBalances).2.1 = .balances bs2 := by rw [e]
+      simpa [MockExchange.step] using this
+    simp only [XState.stepL, e, answerL, Spec.Conforms, Spec.Answer.events]
+    refine ⟨⟨hl2, ?_⟩, trivial⟩
+    rw [← hb]; exact htimes
+  | fetchOrdersOpen =>
+    simp only [XState.stepL, MockExchange.step, answerL, Spec.Conforms, Spec.Answer.events]
+    refine ⟨?_, trivial⟩
+    have := ho
+    simp only [XState.stepL] at this
+    exact this
+  | fetchTrades since =>
+    have e := htr since
+    rw [← hbase] at e
+    simp only [XState.stepL, e, answerL, Spec.Conforms, Spec.Answer.events]
+    exact ⟨trivial, trivial⟩
+  | cancelOrder =>
+    simp [XState.stepL, MockExchange.step, answerL, Spec.Conforms, Spec.Answer.events]
+  | openOrder r =>
+    have e := Props_responses hc hist t r
+    rw [← hbase] at e
+    simp only [answerL]
+    cases hr : MockExchange.Spec.respond c.base (MockExchange.Spec.accepted c.base (opens c.base hist))
+        ⟨exchangeTime c.base t, r⟩ with
+    | none =>
+      rw [hr] at e
+      obtain ⟨err, he⟩ := e
+      simp only [XState.stepL, he, Spec.Conforms, Spec.Answer.events]
+      exact ⟨trivial, trivial⟩
+    | some v =>
+      obtain ⟨a, b, tr⟩ := v
+      rw [hr] at e
+      simp only at e
+      simp only [XState.stepL, e, Spec.Conforms, Spec.Answer.events]
+      exact ⟨trivial, trivial⟩
+
+/-- The specification's exchange time is the code's stamp. -/
+theorem exchTime_eq (c : XCfg) (t : Int) : Spec.exchTime c t = stampTime c.base.latency t := by
+  simp only [Spec.exchTime, stampTime]
+  split <;> split <;> first | rfl | omega
+
+theorem exchangeTime_ledgerTime (c : XCfg) (t : Int) :
+    exchangeTime c.base (ledgerTime c.base.latency t) = Spec.exchTime c t := by
+  rw [exchTime_eq, stampTime_eq]; rfl
+
+theorem seenOpens_eq (c : XCfg) (hist : List (Int × Request)) :
+    Spec.seenOpens c hist = opens c.base (ledgerOps c.base.latency hist) := by
+  induction hist with
+  | nil => rfl
+  | cons op hist ih =>
+    obtain ⟨t, rq⟩ := op
+    cases rq <;>
+      simp only [Spec.seenOpens, ih, opens, ledgerOps, List.map_cons, List.filterMap_cons, evOf,
+        List.reverse_cons, exchangeTime_ledgerTime]
+
+theorem answer_eq (c : XCfg) (hist : List (Int × Request)) (t : Int) (rq : Request) :
+    Spec.answer c hist t rq = answerL c (ledgerOps c.base.latency hist) (ledgerTime c.base.latency t) rq := by
+  simp only [Spec.answer, answerL, seenOpens_eq, exchangeTime_ledgerTime]
+  rfl
+
+theorem xinit_latency (c : XCfg) : (XState.init c).base.latency = c.base.latency := rfl
 
 /-- The order maps after any history and one more request stamped `t`. -/
 theorem step_orders {c : XCfg} (hd : Spec.distinctCids c) (hist : List (Int × Request)) (t : Int) (rq : Request) :
     let x' := (((XState.init c).run hist).step t rq).1
-    x'.opens = Spec.openAt c (exchangeTime c.base t) ∧
+    x'.opens = Spec.openAt c (Spec.exchTime c t) ∧
     x'.cancels = Spec.byCid (·.head.cid) (Spec.initialCancelled c) ∧
-    x'.ordersAll = Spec.ordersAt c (exchangeTime c.base t) := by
-  have h1 : ((((XState.init c).run hist).step t rq).1).opens = Spec.openAt c (exchangeTime c.base t) := by
-    rw [step_opens, xrun_time, stampOpens_xrun, init_opens_byCid hd]
-    rfl
-  have h2 : ((((XState.init c).run hist).step t rq).1).cancels = Spec.byCid (·.head.cid) (Spec.initialCancelled c) := by
-    rw [step_cancels, xrun_cancels, init_cancels_byCid hd]
-  refine ⟨h1, h2, ?_⟩
-  simp only [XState.ordersAll, Spec.ordersAt, h1, h2]
+    x'.ordersAll = Spec.ordersAt c (Spec.exchTime c t) := by
+  have := stepL_orders hd (ledgerOps c.base.latency hist) (ledgerTime c.base.latency t) rq
+  rw [exchangeTime_ledgerTime] at this
+  simpa only [xrun_eq, xstep_eq, xinit_latency, xrunL_base, run_latency] using this
 
 /-- Whatever the exchange has been asked before (`hist`), its response to the next request conforms
 to the history-only answer of the specification, and it broadcasts exactly the notifications that
@@ -704,63 +903,8 @@ theorem step_conforms {c : XCfg} (hc : c.base.wf = true) (hd : Spec.distinctCids
     (hist : List (Int × Request)) (t : Int) (rq : Request) :
     Spec.Conforms (((XState.init c).run hist).step t rq).2.1 (Spec.answer c hist t rq) ∧
     (((XState.init c).run hist).step t rq).2.2 = (Spec.answer c hist t rq).events := by
-  obtain ⟨ho, hcn, hall⟩ := step_orders hd hist t rq
-  have hg : ((((XState.init c).run hist).step t rq).1).groups =
-      Spec.groups (Spec.ordersAt c (exchangeTime c.base t)) := by rw [groups_eq_spec, hall]
-  have hbase : ((XState.init c).run hist).base = MockExchange.run (MockExchange.init c.base) hist := by
-    rw [xrun_base]; rfl
-  have htimes := step_balance_times ((XState.init c).run hist).base t rq
-  rw [xrun_time] at htimes
-  obtain ⟨⟨bs1, hs1, hl1⟩, ⟨bs2, hs2, hl2⟩, htr⟩ := Props_queries hc hist t
-  cases rq with
-  | fetchSnapshot =>
-    have e := hs1
-    rw [← hbase] at e
-    have hb : (MockExchange.step ((XState.init c).run hist).base t .fetchSnapshot).1.balances = bs1 := by
-      have : (MockExchange.step ((XState.init c).run hist).base t .fetchSnapshot).2.1 = .snapshot bs1 := by rw [e]
-      simpa [MockExchange.step] using this
-    simp only [XState.step, e, Spec.answer, Spec.Conforms, Spec.Answer.events] at hg ⊢
-    refine ⟨⟨hl1, ?_, hg⟩, trivial⟩
-    rw [← hb]; exact htimes
-  | fetchBalances =>
-    have e := hs2
-    rw [← hbase] at e
-    have hb : (MockExchange.step ((XState.init c).run hist).base t .fetchBalances).1.balances = bs2 := by
-      have : (MockExchange.step ((XState.init c).run hist).base t .fetchBalances).2.1 = .balances bs2 := by rw [e]
-      simpa [MockExchange.step] using this
-    simp only [XState.step, e, Spec.answer, Spec.Conforms, Spec.Answer.events]
-    refine ⟨⟨hl2, ?_⟩, trivial⟩
-    rw [← hb]; exact htimes
-  | fetchOrdersOpen =>
-    simp only [XState.step, MockExchange.step, Spec.answer, Spec.Conforms, Spec.Answer.events]
-    refine ⟨?_, trivial⟩
-    have := ho
-    simp only [XState.step] at this
-    exact this
-  | fetchTrades since =>
-    have e := htr since
-    rw [← hbase] at e
-    simp only [XState.step, e, Spec.answer, Spec.Conforms, Spec.Answer.events]
-    exact ⟨trivial, trivial⟩
-  | cancelOrder =>
-    simp [XState.step, MockExchange.step, Spec.answer, Spec.Conforms, Spec.Answer.events]
-  | openOrder r =>
-    have e := Props_responses hc hist t r
-    rw [← hbase] at e
-    simp only [Spec.answer]
-    cases hr : MockExchange.Spec.respond c.base (MockExchange.Spec.accepted c.base (opens c.base hist))
-        ⟨exchangeTime c.base t, r⟩ with
-    | none =>
-      rw [hr] at e
-      obtain ⟨err, he⟩ := e
-      simp only [XState.step, he, Spec.Conforms, Spec.Answer.events]
-      exact ⟨trivial, trivial⟩
-    | some v =>
-      obtain ⟨a, b, tr⟩ := v
-      rw [hr] at e
-      simp only at e
-      simp only [XState.step, e, Spec.Conforms, Spec.Answer.events]
-      exact ⟨trivial, trivial⟩
+  have := stepL_conforms hc hd (ledgerOps c.base.latency hist) (ledgerTime c.base.latency t) rq
+  simpa only [xrun_eq, xstep_eq, xinit_latency, xrunL_base, run_latency, answer_eq] using this
 
 /-! ## A.7 The channel capacity -/
 
@@ -882,11 +1026,11 @@ theorem xstep_no_panic {x : XState} (h : WF x.base) (t : Int) (rq : Request) :
     intro he
     simp only [XState.step, step_open_resp] at he
     injection he with he
-    exact openOrder_no_panic (updateTime_wf t h) r he
+    exact openOrder_no_panic (updateTime_wf _ h) r he
   | _ => simp [XState.step, MockExchange.step]
 
 theorem xstep_wf {x : XState} (h : WF x.base) (t : Int) (rq : Request) : WF (x.step t rq).1.base := by
-  rw [(step_base x t rq).1]; exact step_wf h t rq
+  rw [(step_base x t rq).1]; exact step_wf h _ rq
 
 theorem xrun_wf {x : XState} (h : WF x.base) (ops : List (Int × Request)) : WF (x.run ops).base := by
   induction ops generalizing x with
@@ -3620,5 +3764,58 @@ theorem abandon_is_invisible {s : Sys} (h : Inv s) {w : Nat} {s1 s2 : Sys} {o1 o
     rw [← h1.1, ← h2.1]
     exact settle_ignores_workers ⟨rfl, rfl, rfl, rfl, rfl, rfl, rfl, rfl, rfl, rfl⟩ h.exch_wf
   · cases h1
+
+/-! ## E. The exchange task lives until it is aborted -/
+
+/-- A well-formed exchange survives the runtime running to quiescence. -/
+theorem settle_alive {t : Sys} (hwf : ∀ x, t.exch = some x → WF x.base) (h : t.exch.isSome = true) :
+    t.settle.exch.isSome = true := by
+  unfold Sys.settle
+  rw [(fire_fields t.runExchange).2.2.2.2.2.2.2.1]
+  obtain ⟨x, hx⟩ := Option.isSome_iff_exists.mp h
+  cases hg : t.gate
+  · rw [runExchange_idle (Or.inl hg)]; exact h
+  · rw [(runExchange_ok hg hx (hwf x hx)).1]; rfl
+
+/-- No operation other than the abort ends a well-formed exchange. -/
+theorem step_alive {s : Sys} (hwf : ∀ x, s.exch = some x → WF x.base) (h : s.exch.isSome = true) {op : Op}
+    (hop : op ≠ .exchStop) {s' : Sys} {obs : Option PollObs} (hs : s.step op = some (s', obs)) :
+    s'.exch.isSome = true := by
+  cases op <;> simp only [Sys.step] at hs
+  case exchStop => exact absurd rfl hop
+  case clock t => cases hs; exact settle_alive hwf h
+  case call w c =>
+    split at hs
+    · cases hs
+      have h1 : (({ s with out := [] } : Sys).call w c).exch = s.exch := by
+        unfold Sys.call; simp only; split <;> simp
+      exact settle_alive (by rw [h1]; exact hwf) (by rw [h1]; exact h)
+    · cases hs
+  case abandon w =>
+    split at hs
+    · cases hs; exact settle_alive hwf h
+    · cases hs
+  case exchOff => cases hs; exact settle_alive hwf h
+  case exchOn => cases hs; exact settle_alive hwf h
+  case adv ms => cases hs; exact settle_alive hwf h
+  case sub => cases hs; exact settle_alive hwf h
+  case poll i =>
+    split at hs
+    · cases hs; exact settle_alive (t := { s with out := [] }) hwf h
+    · cases hs
+
+theorem run_alive {s : Sys} (h : Inv s) (hset : Settled s) (ha : s.exch.isSome = true) (ops : List Op)
+    (hno : Op.exchStop ∉ ops) : (s.run ops).exch.isSome = true := by
+  induction ops generalizing s with
+  | nil => exact ha
+  | cons op ops ih =>
+    have h1 : op ≠ .exchStop := fun e => hno (e ▸ List.mem_cons_self)
+    have h2 : Op.exchStop ∉ ops := fun e => hno (List.mem_cons_of_mem _ e)
+    simp only [Sys.run, List.foldl_cons]
+    cases hs : s.step op with
+    | none => exact ih h hset ha h2
+    | some r =>
+      obtain ⟨hi, hs'⟩ := h.step (obs := r.2) hs
+      exact ih hi hs' (step_alive h.exch_wf ha h1 (obs := r.2) hs) h2
 
 end BarterModel.MockClient
